@@ -383,3 +383,70 @@ def encode_frame(rng, msg=None, seq=None):
     r = impl_encode(m, "SND", "TGT", seq, False)
     assert r[0] == 0, r
     return bytes(r[1][i] for i in range(len(r[1]))) if all(c < 256 for c in r[1]) else None
+
+
+# ------------------------------------------------------------------------- well-formedness (C01 hypothesis, Python twin)
+
+def open_members(entry):
+    """group members that are still 'open' right after this entry has been decoded"""
+    t = table()
+    k, v = txt(entry[0]), entry[1]
+    if v[0] != 1:
+        return set()
+    om = set(t.get(k, []))
+    if v[1] and v[1][-1]:
+        om |= open_members(v[1][-1][-1])
+    return om
+
+
+def wf_level(entries, allowed, depth):
+    """entries of one container level; allowed = member list of the enclosing group (None at root)"""
+    t = table()
+    seen = set()
+    prev = None
+    for e in entries:
+        k, v = txt(e[0]), e[1]
+        if k in seen or not k or not k.isdigit() or k != str(int(k)) or k in HEADER_TAGS:
+            return False
+        seen.add(k)
+        if allowed is not None and k not in allowed:
+            return False
+        if prev is not None and k in open_members(prev):
+            return False
+        if v[0] == 2:
+            return False
+        if v[0] == 0:
+            s = txt(v[1])
+            if k in t or not s or "\x01" in s or any(ord(c) > 255 for c in s):
+                return False
+        else:
+            if k not in t or not v[1]:
+                return False
+            items = v[1]
+            for i, it in enumerate(items):
+                if not it or not wf_level(it, t[k], depth + 1):
+                    return False
+                if i > 0:
+                    first = txt(it[0][0])
+                    if first in t or first not in {txt(x[0]) for x in items[i - 1]}:
+                        return False
+                    if first in open_members(items[i - 1][-1]):
+                        return False
+        prev = e
+    return True
+
+
+def wf_msg(m):
+    mt = txt(m[0])
+    if not mt or "\x01" in mt or any(ord(c) > 255 for c in mt):
+        return False
+    return wf_level(m[1], None, 0)
+
+
+def marker_beyond_start(frame):
+    return bytes(frame).find(b"8=FIX.", 1) != -1
+
+
+def split_cuts(stream, cuts):
+    cuts = sorted(set(c for c in cuts if 0 < c < len(stream)))
+    return [stream[a:b] for a, b in zip([0] + cuts, cuts + [len(stream)])]
